@@ -202,6 +202,12 @@ func runCheck(root, prop, tier string, makeBaseline, verbose, keep bool, onlyFn 
 	if tier == "thorough" {
 		timeout = 90
 	}
+	if s := os.Getenv("GOVC_OBL_TIMEOUT"); s != "" {
+		// the must-fail corpus runs with a short limit: a mutant only has to fail
+		if n, err := strconv.Atoi(s); err == nil && n > 0 {
+			timeout = n
+		}
+	}
 	work := filepath.Join(root, ".work", prop)
 	os.RemoveAll(work)
 	eng.discharge(obls, work, timeout, tier == "thorough", 8)
